@@ -21,6 +21,7 @@ def dispatch (line : String) : String :=
       | "mgr" => MgrDriver.handle args
       | "gmove" => GridDriver.handle args
       | "trainer" => TrainerDriver.handle args
+      | "train" => TrainerDriver.handleTrain args
       | "build" => BuildersDriver.handle args
       | "mask" => MaskDriver.handle args
       | "gym" => AdaptersDriver.handleGym args
